@@ -201,6 +201,8 @@ def engine_budget(eng, t):
         cmd += " movetime " + mt
     if inf == "1":
         cmd += " infinite"
+    if (len(wt) + len(bi)) % 5 == 0:
+        cmd = cmd.replace("go ", "go depth 60 ", 1) if len(wt) % 2 else cmd + " depth 60"     # a depth limit does not switch the clock off
     eng.send(cmd)
     eng.send("stop")
     lines, ok = eng.read_until(lambda l: l.startswith("bestmove"), 20)
@@ -254,6 +256,10 @@ def check_C13(chk):
         if val == "none":
             stats["no_timer"] += 1
             stats["infinite"] += int(inf == "1")
+            if inf != "1" and (mt != "-" or all(int(x) <= U64 for x in (wt, bt, wi, bi))) and nfail < 5:
+                nfail += 1
+                chk.violation("a go with a complete time control announced no time budget (no `info time` line, so no timer limits the search): go wtime %s btime %s winc %s binc %s%s" % (
+                    wt, bt, wi, bi, (" movetime " + mt) if mt != "-" else ""), {"tuple": t, "output": lines[-4:], "kind": "spec-oracle failure on the implementation"})
             continue
         v = int(val)
         bad = None
